@@ -454,8 +454,46 @@ def whitespace_family(ctx):
     return res
 
 
+LATE_TRANSFERS = [
+    ("RETR f.txt", [], [150, 226], b"0123456789"), ("RETR f.txt", ["REST 3"], [150, 226], b"3456789"), ("RETR d/g.txt", [], [150, 226], b"hello world"),
+    ("STOR late.bin", [], [150, 226], None), ("APPE f.txt", [], [150, 226], None), ("STOR f.txt", ["REST 2"], [150, 226], None),
+    ("LIST", [], [150, 226], None), ("LIST d", [], [150, 226], None), ("MLSD", [], [150, 200], None), ("MLSD d", [], [150, 200], None),
+]
+
+
+def late_family(ctx):
+    """"with and without a data connection being made": the transfer command is sent FIRST and the data connection is
+    made while its worker waits (within wait_future_timeout) - one 150, then exactly one completion reply, of the class
+    the same transfer gets when the connection is made first; other commands may pass in between"""
+    import latewire as LW
+
+    res = Result()
+    users = S.USERS_ANON
+    jobs, meta = [], []
+    for line, before, want, data in LATE_TRANSFERS:
+        for inter in ([], ["PWD"], ["PWD", "SYST"]):
+            jobs.append((users, [None] * len(users), S.TREE, [("late", line, inter, before)], ["USER bob"]))
+            meta.append((line, before, inter, want, data))
+    outs = LW.run_many(jobs)
+    for (line, before, inter, want, data), recs in zip(meta, outs):
+        res.cases += 1
+        res.count("late_data_connection")
+        inp = {"kind": "late-data-connection", "transfer": line, "before": before, "interposed": inter}
+        if isinstance(recs, str) or not recs:
+            res.disagreements.append({"correspondence": "C05 late-data harness", "input": inp, "impl": recs})
+            continue
+        res.distinct.add(("late", line, tuple(before), tuple(inter)))
+        r = recs[-1]
+        r["replies"] = [c for c in r["replies"] if c not in (257, 215)]  # (the interposed commands' own answers)
+        if r["replies"] != want or (data is not None and r.get("data") != data):
+            res.oracle_failures.append({"input": inp, "what": "%r sent before the data connection was made (which followed within the waiting time%s): replies %r%s; with the connection made first: %r" % (
+                line, ", after %r" % inter if inter else "", r["replies"], (", %d bytes delivered" % len(r.get("data") or b"")) if data is not None else "", want), "signature": "C05:late-data-connection-not-served"})
+    return res
+
+
 def correspondence(ctx):
     r = _run(ctx, gen_histories(ctx))
+    r.merge(late_family(ctx))
     r.merge(whitespace_family(ctx))
     r.merge(limits_family(ctx))
     r.merge(pipelined_family(ctx))
@@ -473,10 +511,19 @@ def search(ctx, prior):
     r.merge(pipelined_family(ctx))
     r.merge(limits_family(ctx))
     r.merge(whitespace_family(ctx))
+    r.merge(late_family(ctx))
     return r
 
 
 def replay(ctx, doc):
+    if doc["failure"]["input"].get("kind") == "late-data-connection":
+        import latewire as LW
+
+        i = doc["failure"]["input"]
+        recs = LW.run_plan((S.USERS_ANON, [None] * len(S.USERS_ANON), S.TREE, [("late", i["transfer"], i["interposed"], i["before"])], ["USER bob"]))
+        print(recs if isinstance(recs, str) else [(r["cmd"], r["replies"], r.get("data")) for r in recs])
+        want = next(w for l, b, w, d in LATE_TRANSFERS if l == i["transfer"] and b == i["before"])
+        return isinstance(recs, str) or not recs or [c for c in recs[-1]["replies"] if c not in (257, 215)] != want
     if doc["failure"]["input"].get("kind") == "trailing-white-space":
         cmds = doc["failure"]["input"]["commands"]
         a = S.run_history(S.USERS_ANON, S.TREE, to_events(cmds))
